@@ -797,9 +797,8 @@ class NodeEnumQNameProperty(NodeTextProperty):
         """Read value from node."""
         try:
             sub_node = self._get_element_by_child_name(node, self._sub_element_name, create_missing_nodes=False)
-            prefix, localname = sub_node.text.split(':')
-            namespace = node.nsmap[prefix]
-            q_name = etree.QName(namespace, localname)
+            # the prefix (or the default name space) may be declared on the element itself
+            q_name = text_to_qname(sub_node.text, sub_node.nsmap)
             return self._converter.to_py(q_name)
         except ElementNotFoundError:
             return copy.deepcopy(self._default_py_value)
@@ -1149,7 +1148,7 @@ class ContainerProperty(_ElementBase):
             sub_node = self._get_element_by_child_name(node, self._sub_element_name, create_missing_nodes=False)
             node_type_str = sub_node.get(QN_TYPE)
             if node_type_str is not None:
-                node_type = text_to_qname(node_type_str, node.nsmap)
+                node_type = text_to_qname(node_type_str, sub_node.nsmap)  # the prefix may be declared on the element itself
                 value_class = self._cls_getter(node_type)
             else:
                 value_class = self.value_class
